@@ -119,6 +119,22 @@ def create_marker_cache_from_specified_markers(
             log=log,
             min_markers=min_markers)
 
+    # parents at which a choice is actually made (more than one child);
+    # markers listed for any other key are never consulted
+    consulted_parents = None
+    if taxonomy_tree is not None:
+        consulted_parents = set()
+        for parent in taxonomy_tree.all_parents:
+            if parent is None:
+                parent_str = 'None'
+                children = taxonomy_tree.children(level=None, node=None)
+            else:
+                parent_str = f'{parent[0]}/{parent[1]}'
+                children = taxonomy_tree.children(
+                    level=parent[0], node=parent[1])
+            if len(children) > 1:
+                consulted_parents.add(parent_str)
+
     query_gene_set = set(query_gene_names)
     reference_gene_set = set(reference_gene_names)
     final_marker_lookup = dict()
@@ -132,7 +148,10 @@ def create_marker_cache_from_specified_markers(
         marker_set = set(marker_lookup[parent_node])
         these_markers = list(marker_set.intersection(query_gene_set))
 
-        if len(these_markers) == 0 and len(marker_set) > 0:
+        is_consulted = (consulted_parents is None
+                        or parent_node in consulted_parents)
+
+        if len(these_markers) == 0 and len(marker_set) > 0 and is_consulted:
             these_markers = list(query_gene_set)
             msg = f"No markers at parent node '{parent_node}' were present "
             msg += "in query set."
